@@ -154,10 +154,24 @@ def check_collapse(idx: Index, rep: Report):
                reason=f"extents {norm(b.body)}, {norm(a.body)} under {cond_b}")
     rep.decide(same_cond and ok2, rule, f, asg["after_index_length"], text="msq_first: (2^(n-1-q), 2, 2^q)",
                what="the two extents are exchanged for the other index order", reason=f"extents {norm(b.orelse)}, {norm(a.orelse)}")
-    resh = [c for c in own_nodes(f.node) if isinstance(c, ast.Call) and norm(c.func) == "np.reshape"]
-    ok = bool(resh) and norm(resh[0].args[1]) == "(before_index_length, 2, after_index_length)" and ".copy()" in norm(resh[0].args[0])
-    rep.decide(ok, rule, f, resh[0] if resh else f.node, text="reshape(copy, (before, 2, after))", what="the collapse works on a copy reshaped as (before, 2, after)",
-               reason=f"reshape {norm(resh[0]) if resh else '?'}")
+    resh = [c for c in own_nodes(f.node) if isinstance(c, ast.Call) and (norm(c.func) == "np.reshape" or (isinstance(c.func, ast.Attribute) and c.func.attr == "reshape"))]
+    ok = False
+    why = "no reshape of the vector found"
+    if resh:
+        dims = resh[0].args[1] if norm(resh[0].func) == "np.reshape" else (resh[0].args[0] if len(resh[0].args) == 1 else ast.Tuple(elts=list(resh[0].args), ctx=ast.Load()))
+        if isinstance(dims, (ast.Tuple, ast.List)) and len(dims.elts) == 3:
+            for br, (wb, wa) in ((True, (2 ** q_s, 2 ** (n_s - 1 - q_s))), (False, (2 ** (n_s - 1 - q_s), 2 ** q_s))):
+                envd = {"before_index_length": b1 if br else b2, "after_index_length": a1 if br else a2}
+                try:
+                    got3 = [symx.to_sympy(x, envd) for x in dims.elts]
+                except symx.Untranslatable as e:
+                    raise AnalysisError(f"collapse: reshape extents not translatable: {e}")
+                ok = symx.equal(got3[0], wb) and symx.equal(got3[1], 2) and symx.equal(got3[2], wa)
+                why = f"reshape extents {got3}"
+                if not ok:
+                    break
+    rep.decide(ok, rule, f, resh[0] if resh else f.node, text="reshape to (before, 2, after)", what="the vector is viewed as (before, 2, after) with the measured qubit as the middle axis",
+               reason=why)
     zero = [n for n in own_nodes(f.node) if isinstance(n, ast.Assign) and isinstance(n.targets[0], ast.Subscript) and norm(n.targets[0].value) == "sv_selected"]
     ok = False
     if zero:
@@ -173,15 +187,68 @@ def check_collapse(idx: Index, rep: Report):
                 ok = False
     rep.decide(ok, rule, f, zero[0] if zero else f.node, text="amplitudes of the other outcome are zeroed",
                what="exactly the slice of the complementary outcome (1 - result) is set to zero", reason=f"zeroing statement {norm(zero[0]) if zero else '?'}")
-    txt = full(f.node)
-    ok = "sqrt_probability = np.linalg.norm(sv_selected)" in txt and "sv_selected = sv_selected / sqrt_probability" in txt
-    rets = [n for n in own_nodes(f.node) if isinstance(n, ast.Return)]
-    ok = ok and bool(rets) and all(norm(r.value) == "(sv_selected, sqrt_probability ** 2)" for r in rets)
-    rep.decide(ok, rule, f, rets[-1] if rets else f.node, text="returns (state / norm, norm^2)",
-               what="the state is renormalised by its norm and the reported probability is that norm squared", reason="renormalisation / probability changed")
-    for cond, what in (("qubit > n_qubits - 1", "qubit index beyond the register is refused"), ("result not in {0, 1}", "results other than 0/1 are refused")):
-        ok = any(isinstance(n, ast.If) and norm(n.test) == cond and isinstance(n.body[0], ast.Raise) for n in own_nodes(f.node))
-        rep.decide(ok, rule, f, f.node, text=cond, what=what, reason=f"guard `{cond}` missing")
+    # renormalisation, symbolically: S = projected vector, N = its norm; the last return is (S / N, N^2), every return reports N^2
+    S, N = sp.Symbol("S", real=True), sp.Symbol("N", positive=True)
+    envr: Dict[str, sp.Expr] = {}
+    seen_proj = False
+    returns = []
+
+    def _first(n):
+        if isinstance(n, ast.Call) and norm(n.func) in ("np.linalg.norm", "numpy.linalg.norm", "norm") and len(n.args) == 1:
+            try:
+                if symx.to_sympy(n.args[0], envr) == S:
+                    return N
+            except symx.Untranslatable:
+                return None
+        if isinstance(n, ast.Call) and norm(n.func) in ("np.sqrt", "math.sqrt") and len(n.args) == 1 and isinstance(n.args[0], ast.Call) and \
+                norm(n.args[0].func) in ("np.vdot", "np.dot") and len({norm(x) for x in n.args[0].args}) == 1 and envr.get(norm(n.args[0].args[0])) == S:
+            return N
+        return None
+
+    def _scan(stmts):
+        nonlocal seen_proj
+        for st in stmts:
+            if isinstance(st, ast.Assign) and norm(st.targets[0]) == "sv_selected" and isinstance(st.value, ast.Call) and norm(st.value.func).endswith(".flatten"):
+                seen_proj = True
+                envr["sv_selected"] = S
+                continue
+            if not seen_proj:
+                continue
+            if isinstance(st, ast.Assign) and isinstance(st.targets[0], ast.Name):
+                try:
+                    envr[st.targets[0].id] = symx.to_sympy(st.value, envr, first=_first)
+                except symx.Untranslatable as e:
+                    raise AnalysisError(f"collapse: statement {norm(st)} after the projection not understood: {e}")
+            elif isinstance(st, ast.AugAssign) and isinstance(st.target, ast.Name) and isinstance(st.op, ast.Div):
+                envr[st.target.id] = envr[st.target.id] / symx.to_sympy(st.value, envr, first=_first)
+            elif isinstance(st, ast.If):
+                saved = dict(envr)
+                _scan(st.body)
+                envr.clear()
+                envr.update(saved)
+                _scan(st.orelse)
+                envr.clear()
+                envr.update(saved)
+            elif isinstance(st, ast.Return):
+                if not isinstance(st.value, ast.Tuple) or len(st.value.elts) != 2:
+                    raise AnalysisError(f"collapse: return {norm(st)} is not a (state, probability) pair")
+                returns.append((st, [symx.to_sympy(x, envr, first=_first) for x in st.value.elts]))
+    _scan(f.node.body)
+    if not returns:
+        raise AnalysisError("collapse: no return after the projection")
+    last = returns[-1]
+    ok = symx.equal(last[1][0], S / N) and all(symx.equal(r[1][1], N ** 2) for r in returns)
+    rep.decide(ok, rule, f, last[0], text="returns (state / norm, norm^2)",
+               what="the state is renormalised by its norm and the reported probability is that norm squared",
+               reason=f"returns {[tuple(r[1]) for r in returns]} with S the projected vector and N its norm")
+    from ..rules.guards import decide_refusals
+    base = {"statevector": [0] * 8, "qubit": 1, "result": 1, "order": "lsq_first", "ignore_zero_prob": False}
+    cases = [(f"qubit {q} of 3", dict(base, qubit=q), q > 2) for q in range(0, 5)]
+    cases += [(f"result {r!r}", dict(base, result=r), r not in (0, 1)) for r in (0, 1, 2, -1, "1")]
+    cases += [(f"order {o!r}", dict(base, order=o), o not in ("lsq_first", "msq_first")) for o in ("lsq_first", "msq_first", "lsb", "")]
+    cases += [("statevector of length 6", dict(base, statevector=[0] * 6), True), ("statevector of length 1, qubit 0", dict(base, statevector=[0], qubit=0), True)]
+    decide_refusals(idx, rep, rule, f, cases, what="qubit indices beyond the register, results other than 0/1, unknown index orders and vectors whose length is not a power of two are refused",
+                    may_skip=("sqrt_probability",))
     # Backend method passes the backend's own declared order
     m = idx.function(f"{BACKEND}::Backend.collapse_statevector_to_desired_measurement")
     rets = [n for n in own_nodes(m.node) if isinstance(n, ast.Return)]
